@@ -22,7 +22,7 @@ def prove(ctx):
 def gen(ctx, rng, nlibs, per, tag):
     libs, cases = [], []
     for li in range(nlibs):
-        lib = cfggen.gen_library(rng, f"{tag}_{ctx.seed}_{li}", with_twins=True)
+        lib = cfggen.gen_library(rng, f"{tag}_{ctx.seed}_{li}", with_twins=True, cfg_defaults=common.CFG_DEFAULTS)
         libs.append(lib)
         for _ in range(per):
             g = cfggen.gen_graph(rng, lib, max_nodes=rng.choice([2, 4, 8]))
@@ -152,6 +152,73 @@ def run_corpus(ctx):
     return good
 
 
+# configuration-valued defaults: `optimizer: Param[Opt] = Opt(lr=0.1)` — a parameter is outside the signature iff its value has the
+# identifier of the default; pairs that must NOT share an identifier
+def _o(lr):
+    return {"c": {"cls": "Opt", "kw": [["lr", {"f": cfggen.fhex(lr)}]]}}
+
+
+CD_LIB = {"pkg": "xvlib_c03d", "enums": [], "classes": [
+    {"name": "Opt", "xpmid": "xvlib_c03d.opt", "parent": None, "kind": "config", "deprecated": False, "args": [
+        {"name": "lr", "decl": "param", "ty": "float", "optional": False, "default": {"f": cfggen.fhex(0.1)}},
+        {"name": "note", "decl": "meta", "ty": "str", "optional": True}]},
+    {"name": "TrainOpt", "xpmid": "xvlib_c03d.trainopt", "parent": None, "kind": "task", "deprecated": False, "args": [
+        {"name": "k", "decl": "param", "ty": "int", "optional": False}]},
+    {"name": "Model", "xpmid": "xvlib_c03d.model", "parent": None, "kind": "config", "deprecated": False, "args": [
+        {"name": "optimizer", "decl": "param", "ty": {"cfg": "Opt"}, "optional": False, "default": _o(0.25)},
+        {"name": "stages", "decl": "param", "ty": {"list": {"cfg": "Opt"}}, "optional": False, "default": {"l": [_o(0.5), _o(0.75)]}},
+        {"name": "named", "decl": "param", "ty": {"dict": {"cfg": "Opt"}}, "optional": False, "default": {"d": [["a", _o(0.5)]]}}]}]}
+
+
+def _m(extra=(), inplace=None, **kw):
+    g = {"nodes": [{"cls": "Model", "values": [[k, v] for k, v in kw.items()], "meta": None, "pre": [], "init": [], "task": None}] + list(extra)}
+    if inplace:
+        g["inplace"] = inplace
+    return g
+
+
+def _on(lr, task=None, note=None):
+    return {"cls": "Opt", "values": [["lr", {"f": cfggen.fhex(lr)}]] + ([["note", note]] if note else []), "meta": None, "pre": [], "init": [], "task": task}
+
+
+_T = {"cls": "TrainOpt", "values": [["k", 1]], "meta": None, "pre": [], "init": [], "task": None}
+CD_PAIRS = [
+    # (kind, a, b, must the identifiers of node 0 differ?)
+    ("config-default:modified-in-place", _m(), _m(inplace=[{"n": 0, "arg": "optimizer", "name": "lr", "v": {"f": cfggen.fhex(0.5)}}]), True),
+    ("config-default:list-member-modified-in-place", _m(), _m(inplace=[{"n": 0, "arg": "stages", "idx": 1, "name": "lr", "v": {"f": cfggen.fhex(0.125)}}]), True),
+    ("config-default:dict-member-modified-in-place", _m(), _m(inplace=[{"n": 0, "arg": "named", "idx": "a", "name": "lr", "v": {"f": cfggen.fhex(0.125)}}]), True),
+    ("config-default:other-value", _m(), _m(extra=[_on(0.5)], optimizer={"r": 1}), True),
+    ("config-default:produced-by-a-task", _m(extra=[_on(0.25)], optimizer={"r": 1}), _m(extra=[_on(0.25, task=2), _T], optimizer={"r": 1}), True),
+    ("config-default:list-order", _m(), _m(extra=[_on(0.75), _on(0.5)], stages={"l": [{"r": 1}, {"r": 2}]}), True),
+    ("config-default:list-length", _m(), _m(extra=[_on(0.5)], stages={"l": [{"r": 1}]}), True),
+    ("config-default:dict-key", _m(), _m(extra=[_on(0.5)], named={"d": [["b", {"r": 1}]]}), True),
+    # … and pairs that must share it (C02's side, kept here so that the model is compared on them too)
+    ("config-default:equal-explicit-value", _m(), _m(extra=[_on(0.25)], optimizer={"r": 1}), False),
+    ("config-default:equal-up-to-meta-parameter", _m(), _m(extra=[_on(0.25, note="x")], optimizer={"r": 1}), False),
+    ("config-default:equal-list", _m(), _m(extra=[_on(0.5), _on(0.75)], stages={"l": [{"r": 1}, {"r": 2}]}), False),
+    ("config-default:modified-in-place-back-to-default", _m(), _m(inplace=[{"n": 0, "arg": "optimizer", "name": "lr", "v": {"f": cfggen.fhex(0.25)}}]), False),
+]
+
+
+def run_cfgdefault_corpus(ctx):
+    cases = [{"lib": 0, "steps": id_steps(a, "A") + id_steps(b, "B")} for _, a, b, _ in CD_PAIRS]
+    res = identlib.run_cases(ctx, [CD_LIB], cases, shards=2)[None]
+    good = []
+    for (kind, a, b, differ), rec in zip(CD_PAIRS, res):
+        if rec["error"]:
+            raise RuntimeError(f"configuration-default pair {kind} cannot be built: {rec['error']}")
+        fa, ra, fb, rb = ids_of(rec, len(a["nodes"]), len(b["nodes"]))
+        ctx.case({"corpus": kind, "a": a, "b": b}, True)
+        ctx.count("corpus", kind)
+        if differ and (fa[0] == fb[0] or ra[0] == rb[0]):
+            ctx.monitor_fail(f"collision:{kind}", f"Model configurations that differ ({kind}) share identifier {fa[0][:16]}…", {"a": a, "b": b})
+        if not differ and (fa[0] != fb[0] or ra[0] != rb[0]):
+            ctx.monitor_fail(f"default-not-recognised:{kind}", f"a Model whose parameters all have the identifiers of their defaults ({kind}) has identifier "
+                                                             f"{fb[0][:16]}… instead of {fa[0][:16]}…", {"a": a, "b": b})
+        good.append(({"graph": a, "edit": {"kind": kind}}, rec))
+    return good
+
+
 def gen_prod_cases(rng, n):
     cases = []
     for i in range(n):
@@ -214,6 +281,8 @@ def prod_part(ctx, n):
 def correspond(ctx):
     rng = ctx.rng
     corpus_good = run_corpus(ctx) + prod_part(ctx, ctx.scale(24, 300))
+    if common.CFG_DEFAULTS:
+        corpus_good += run_cfgdefault_corpus(ctx)
     ctx.rule = ("near pairs: graph and its image under one signature-changing edit (scalar changed, list append/drop/swap, element moved between neighbouring "
                 "lists, dict key renamed / item added / dropped / moved between sibling dicts, sibling parameters swapped, enum member, unset optional set, "
                 "pre-task added, init tasks permuted, producing task changed, type identifier changed); non-trivial = edit inside a container or at a "
@@ -248,6 +317,8 @@ def correspond(ctx):
 
 def search(ctx):
     run_corpus(ctx)
+    if common.CFG_DEFAULTS:
+        run_cfgdefault_corpus(ctx)
     prod_part(ctx, 60)
     rng = random.Random(f"search-{ctx.seed}")
     libs, cases = gen(ctx, rng, ctx.scale(8, 30), 100, "c03s")
